@@ -430,10 +430,11 @@ func ruleReadKeepsPartialLine(c *Ctx, rule string) {
 }
 
 // ruleCompletionShape (Q7): two shape facts of Interp.CompleteWords / Comp.CompleteWords.
-//  (a) the part of the line kept in front of the completions is cut from one string: in `len(A) - len(TailIdentifier(B))`
-//      A and B are the same variable;
-//  (b) the first word of a dotted chain is resolved by the functions that walk the enclosing scopes (TryResolve,
-//      TryResolveType ...), never by indexing the Binds / Types map of the current scope alone.
+//
+//	(a) the part of the line kept in front of the completions is cut from one string: in `len(A) - len(TailIdentifier(B))`
+//	    A and B are the same variable;
+//	(b) the first word of a dotted chain is resolved by the functions that walk the enclosing scopes (TryResolve,
+//	    TryResolveType ...), never by indexing the Binds / Types map of the current scope alone.
 func ruleCompletionShape(c *Ctx, rule string) {
 	pk := c.P.Pkg("fast")
 	info := pk.TypesInfo
